@@ -111,8 +111,8 @@ func VerifC16History() { verifC16History(3) }
 
 // VerifC16History6 is the thorough variant.
 //
-//verif:harness name=H16a-history6 tier=thorough bounds="as H16a-history with 5 steps" reach=done,upload-failed,upload-ok,inflight maxpaths=5000000
-func VerifC16History6() { verifC16History(5) }
+//verif:harness name=H16a-history6 tier=thorough bounds="as H16a-history with 4 steps" reach=done,upload-failed,upload-ok,inflight maxpaths=5000000
+func VerifC16History6() { verifC16History(4) }
 
 func verifC16History(steps int) {
 	g := &verifC16{devs: [2]agd.DeviceID{"dev00001", "dev00002"}}
